@@ -354,13 +354,16 @@ PROPS = {
                         "the in-memory answer names the block the lookup map holds (may outlive a replaced cas_content entry, as in the Rust)"],
     },
     "C14": {
-        "modules": ["XetProps.C14"],
+        "modules": ["XetProps.C14", "XetProps.C14Upload"],
         "theorems": [
             "Xet.Dedup.C14_file_conservation", "Xet.Dedup.C14_file_conservation_prefix", "Xet.Dedup.C14_pointer_size", "Xet.Dedup.C14_record_size",
             "Xet.Dedup.C14_session_sum", "Xet.Dedup.C14_session_sum_totals", "Xet.Dedup.C14_session_conserved", "Xet.Dedup.localQuery_legal",
             "Xet.Dedup.processLoop_inv", "Xet.Dedup.answersLegal_iff", "Xet.Dedup.lensFunctional_or_collision",
+            "Xet.UploadBytes.C14_upload_layer_projects", "Xet.UploadBytes.C14_xorb_accumulator_exact", "Xet.UploadBytes.C14_xorb_upload_bytes_exact",
+            "Xet.UploadBytes.C14_shard_upload_bytes_exact", "Xet.UploadBytes.C14_upload_bytes_only_on_success",
+            "Xet.UploadBytes.C14_xorb_accumulator_bounded", "Xet.UploadBytes.C14_upload_bytes_needs_take_after_join",
         ],
-        "suites": ["deduper", "session", "session_conc"],
+        "suites": ["deduper", "session", "session_conc", "session_faults"],
         "level_text": "Theorems for every hash-primitive record, limits, EVERY defrag decision procedure, every partition of a file's chunk list into "
                       "process_chunks calls and every oracle with legal answers: total bytes/chunks = what was fed, new + deduplicated = total, "
                       "withheld <= new, pointer size = total bytes = file_size of the record (preserved by merge_in / finalize); session metrics = sum "
